@@ -21,7 +21,7 @@ E == Tr[l]
 
 Fresh == [pods |-> <<>>, ctrs |-> <<>>, sp |-> 0, sc |-> 0, np |-> 0, nc |-> 0, more |-> FALSE, pending |-> FALSE,
           sends |-> 0, calls |-> 0, failed |-> FALSE, okdone |-> FALSE, lastover |-> 0, updates |-> FALSE,
-          activated |-> FALSE, minobjs |-> 8, synced |-> FALSE, expect |-> "", grew |-> FALSE, accepted |-> FALSE, again |-> FALSE]
+          activated |-> FALSE, minobjs |-> 8, synced |-> FALSE, expect |-> "", other |-> FALSE, grew |-> FALSE, accepted |-> FALSE, again |-> FALSE]
 
 TraceInit == l = 1 /\ bad = <<>> /\ st = Fresh
              /\ stats = [scenarios |-> 0, sends |-> 0, oversize |-> 0, delivered |-> 0, failures |-> 0, rejected |-> 0]
@@ -89,6 +89,15 @@ TActivated ==
   IF st.failed \/ ~st.synced THEN Reject("C09-activated-after-failure", <<>>)
   ELSE Go("sends", [st EXCEPT !.activated = TRUE])
 
+\* another plugin registering afterwards is handed the same, complete state
+TOtherHandler ==
+  IF E.pods # st.pods \/ E.ctrs # st.ctrs \/ ~E.intact THEN Reject("C09-delivery-second-plugin", <<Len(E.pods), Len(E.ctrs)>>)
+  ELSE Go("delivered", [st EXCEPT !.other = TRUE])
+TOtherEnd ==
+  IF E.hung \/ E.text # "" THEN Reject("C09-second-plugin-failed", <<E.text>>)
+  ELSE IF ~st.other /\ ~st.failed THEN Reject("C09-delivery-second-plugin", <<"handler not called">>)
+  ELSE Skip
+
 \* a second session of the same stub with another state: exactly that state, nothing left over from the first
 TAgainHandler ==
   IF E.pods # <<"again-pod0", "again-pod1">> \/ E.ctrs # <<"again-ctr0", "again-ctr1", "again-ctr2">>
@@ -114,6 +123,8 @@ TraceNext ==
        [] E.ev = "updates"   -> TUpdates
        [] E.ev = "synced"    -> TSynced
        [] E.ev = "activated" -> TActivated
+       [] E.ev = "other.handler" -> TOtherHandler
+       [] E.ev = "other.end" -> TOtherEnd
        [] E.ev = "again.handler" -> TAgainHandler
        [] E.ev = "again.end" -> TAgainEnd
        [] E.ev = "End"       -> TEnd
